@@ -220,6 +220,14 @@ def fail(msg: str) -> NoReturn:
     raise E2(msg)
 
 
+def boom(k: int) -> int:
+    if k % 3 == 0:
+        raise ValueError("v")
+    if k % 3 == 1:
+        raise KeyError("k")
+    return k
+
+
 def ident(x: T) -> T:
     return x
 
@@ -579,7 +587,7 @@ class World:
                 out += vs[: max(1, 4 // len(t[1]) + 1)]
             return out
         if k == "int":
-            return ["0", "1", "-3", "7", "True", "12"]
+            return ["0", "1", "-3", "7", "True", "12", "2", "5"]
         if k == "str":
             return ['""', '"a"', '"hello"', '"b"']
         if k == "bool":
@@ -920,8 +928,9 @@ class Gen:
                         if ci.flavor == "nt":
                             out.append(("%s[%d]" % (v.name, i), ft))
             elif c[0] == "box" and w.sub(c[1], t):
+                # Box.put mutates: a bare `b.item` read would be narrowed by mypy in a test and stay narrowed across
+                # `b.put(..)` (attribute narrowing is outside the statement); reads go through the method
                 out.append(("%s.get()" % v.name, c[1]))
-                out.append(("%s.item" % v.name, c[1]))
             elif c[0] == "tuple":
                 for i, it in enumerate(c[1]):
                     if w.sub(it, t):
@@ -1649,7 +1658,9 @@ class StmtGen(CondGen):
             if self.cfg.on("match"):
                 table += [(self.s_match, 6)]
             if self.cfg.on("nested") and "nested" not in env.ctx:
-                table += [(self.s_nested, 2)]
+                table += [(self.s_nested, 2), (self.s_closure_shape, 2)]
+            if self.cfg.on("try"):
+                table += [(self.s_nested_try_shape, 2)]
         tot = sum(wt for _, wt in table)
         x = r.random() * tot
         for fn, wt in table:
@@ -1835,7 +1846,7 @@ class StmtGen(CondGen):
             i = r.randrange(len(c[1]))
             return r.choice(["%s[%d]" % (n, i), "len(%s)" % n, "%s[-1]" % n, "(%s + %s)" % (n, n)])
         if k == "box":
-            return r.choice(["%s.get()" % n, "%s.item" % n, "%s.map(%s)" % (n, self.lam(("call", (c[1],), r.choice([INT, STR])), env, 1))])
+            return r.choice(["%s.get()" % n, "%s.map(%s)" % (n, self.lam(("call", (c[1],), r.choice([INT, STR])), env, 1))])
         if k == "call":
             return "%s(%s)" % (n, ", ".join(e(p) for p in c[1])) if c[2] != NONE else None
         if k == "type":
@@ -2382,6 +2393,292 @@ class FullGen(StmtGen):
         if not env.dead and r.random() < 0.5:
             self.emit(self.probe(v.name, env, env.vars[v.name]))
 
+    # ---- directed shapes ------------------------------------------------------------------------------
+    SIMPLE_MEMBER_KINDS = ("int", "str", "bool", "bytes", "none", "enum", "cls")
+
+    def shape_var(self, env: Env, need_none: bool = False) -> Var:
+        """A rebindable local of declared union type with >= 2 cheaply constructible members (an existing one
+        or a fresh declaration)."""
+        r = self.rnd
+        ok = lambda m: m[0] in self.SIMPLE_MEMBER_KINDS and not (m[0] == "cls" and self.w.classes[m[1]].flavor in ("mixin", "nt", "exc"))
+        cands = [v for v in env.vars.values() if not v.frozen and v.decl[0] == "union" and sum(1 for m in v.decl[1] if ok(m)) >= 2 and (not need_none or NONE in v.decl[1])]
+        if cands and r.random() < 0.6:
+            return r.choice(cands)
+        pool = [INT, STR, BOOL, BYTES] + [c for c in self.w.class_types() if ok(c)][:2] + ([("enum", sorted(self.w.enums)[0])] if self.w.enums else [])
+        ms = r.sample(pool, r.choice([2, 2, 3]))
+        if need_none or r.random() < 0.5:
+            ms.append(NONE)
+        t = union(ms)
+        n = self.fresh("v")
+        self.emit("%s: %s = %s" % (n, render(t), self.atom(r.choice(members(t)), env)[0]))
+        env.assigned.add(n)
+        return env.add(Var(n, t, form="assign"))
+
+    def simple_members(self, v: Var) -> list:
+        return [m for m in v.decl[1] if m[0] in self.SIMPLE_MEMBER_KINDS and not (m[0] == "cls" and self.w.classes[m[1]].flavor in ("mixin", "nt", "exc"))]
+
+    def assign_member(self, v: Var, m: Ty, env: Env) -> None:
+        code, ty = self.atom(m, env)
+        self.emit("%s = %s" % (v.name, code))
+        self.set_after_assign(v, ty if ty[0] != "lit" else lit_base(ty), env)
+
+    def boom_arg(self, env: Env) -> str:
+        ints = [v for v in env.vars.values() if v.cur == INT and v.decl == INT and v.form != "counter"]
+        if ints and self.rnd.random() < 0.7:
+            return self.rnd.choice(ints).name
+        return self.rnd.choice(["0", "1", "2", "2", "3", "4", "5"])
+
+    def s_nested_try_shape(self, env: Env, depth: int) -> None:
+        """(A) nested try statements: a union-typed local is narrowed by assignment before the outer try, re-assigned
+        inside an INNER try (which does not catch what is raised: `except E1` or try/finally) around calls that really
+        raise ValueError/KeyError, so the exception reaches the OUTER handler from an intermediate state; the variable
+        is probed there and after the statement."""
+        r = self.rnd
+        v = self.shape_var(env)
+        ms = self.simple_members(v)
+        levels = r.choice([2, 2, 2, 3])
+        wrap = r.choice([None, None, "for", "with", "while"]) if depth > 0 else None
+        self.lab("shape:nested_try")
+        self.lab("shape:nested_try_depth%d" % levels)
+        if wrap:
+            self.lab("shape:nested_try_in_" + wrap)
+        outer_assigned = env.assigned
+        env.assigned = set()
+        base_ind = self.ind
+        if wrap == "for":
+            self.emit("for %s in range(2):" % self.fresh("x"))
+            self.ind += 1
+        elif wrap == "while":
+            cn = self.fresh("n")
+            self.emit("%s = 0" % cn)
+            env.add(Var(cn, INT, frozen=True, form="counter"))
+            self.emit("while %s < 2:" % cn)
+            self.ind += 1
+            self.emit("%s += 1" % cn)
+        elif wrap == "with":
+            self.emit("with Guard() as %s:" % self.fresh("g"))
+            self.ind += 1
+        body = env.clone()
+        body.assigned = env.assigned
+        body.ctx = env.ctx + ("try",) + (("loop",) if wrap in ("for", "while") else ())
+        self.enter(body, "nested-try-body")
+        bv = body.vars[v.name]
+        self.assign_member(bv, r.choice(ms), body)
+        self.emit("try:")
+        self.ind += 1
+        if r.random() < 0.4:
+            self.emit("boom(%s)" % self.boom_arg(body))
+        for lvl in range(1, levels):
+            self.emit("try:")
+            self.ind += 1
+            if lvl < levels - 1 and r.random() < 0.5:
+                self.assign_member(bv, r.choice(ms), body)
+                self.emit("boom(%s)" % self.boom_arg(body))
+        # innermost body: assignments to different members around raising calls
+        seq = r.sample(ms, min(len(ms), r.choice([2, 2, 3]))) if len(ms) > 1 else ms
+        for i, m in enumerate(seq):
+            self.assign_member(bv, m, body)
+            if r.random() < 0.4:
+                self.emit(self.probe(bv.name, body, bv))
+            self.emit("boom(%s)" % self.boom_arg(body))
+        # close the inner levels with handlers that cannot catch ValueError/KeyError, or with finally
+        for lvl in range(levels - 1, 0, -1):
+            self.ind -= 1
+            kind = r.choice(["except-E1", "finally", "except-E1-finally"])
+            if kind.startswith("except"):
+                self.emit("except E1:")
+                self.emit("    " + self.probe(self.atom(r.choice([INT, STR]), body)[0], body, form="handler-neutral"))
+            if kind.endswith("finally"):
+                self.emit("finally:")
+                self.emit("    " + self.probe(self.atom(r.choice([INT, STR]), body)[0], body, form="finally-neutral"))
+            if lvl > 1 and r.random() < 0.4:
+                self.assign_member(bv, r.choice(ms), body)
+                self.emit("boom(%s)" % self.boom_arg(body))
+        self.ind -= 1
+        ends = [body]
+        for h in r.choice([["(ValueError, KeyError)"], ["ValueError", "KeyError"], ["(ValueError, KeyError)"]]):
+            he = env.clone()
+            he.assigned = env.assigned
+            he.ctx = env.ctx + ("except",)
+            self.enter(he, "nested-try-outer-handler")
+            hv = he.vars[v.name]
+            hv.cur, hv.form = hv.decl, "outer-except-entry"
+            self.emit("except %s:" % h)
+            self.ind += 1
+            self.emit(self.probe(hv.name, he, hv))
+            t = self.narrow_test(hv, he)
+            if t is not None and r.random() < 0.6:
+                code, yes, _no, form = t
+                if yes != NEVER:
+                    self.emit("if %s:" % code)
+                    ye = he.clone()
+                    self.enter(ye, form + "+")
+                    ye.vars[v.name].cur, ye.vars[v.name].form = yes, form + "+"
+                    self.ind += 1
+                    self.emit(self.probe(v.name, ye, ye.vars[v.name]))
+                    if yes[0] not in ("union", "object"):
+                        u = self.use_expr(ye.vars[v.name], ye)
+                        if u is not None:
+                            self.emit(self.probe(u, ye, form="use:" + form + "+"))
+                    self.ind -= 1
+            self.ind -= 1
+            ends.append(he)
+        if r.random() < 0.3:
+            self.emit("finally:")
+            self.emit("    " + self.probe(self.atom(INT, env)[0], env, form="finally-neutral"))
+        self.ind = base_ind
+        for e2 in ends:
+            e2.vars = {k: x for k, x in e2.vars.items() if k in env.vars}
+        assigned = env.assigned | {v.name}
+        env.assigned = outer_assigned
+        env.assigned |= assigned
+        for nme in assigned:
+            if nme in env.vars:
+                env.vars[nme].cur, env.vars[nme].form = env.vars[nme].decl, "after-nested-try"
+        self.emit(self.probe(v.name, env, env.vars[v.name]))
+
+    CLOSURE_POSITIONS = ("plain", "if", "else", "for-body", "for-else", "while-body", "while-else", "with-body", "try-body", "except", "try-else", "finally", "match-case", "aug", "match-mapping-rest", "depth2-if-for-else", "depth2-for-if", "depth2-try-for-else", "walrus")
+
+    def s_closure_shape(self, env: Env, depth: int) -> None:
+        """(B) a closure defined after a local was narrowed reads it; LATER the enclosing function re-assigns the local to
+        another member of its declared type at a systematically varied statement position; then the closure is called."""
+        r = self.rnd
+        if "nested" in env.ctx:
+            return self.s_probe(env, depth)
+        pos = r.choice(self.CLOSURE_POSITIONS)
+        v = None
+        special = pos in ("aug", "match-mapping-rest")
+        if special:
+            # aug: `x += Vec(..)` turns an int into a Vec through Vec.__radd__ (or `x += 0.5` an int into a float);
+            # match-mapping-rest: `case {"a": 1, **x}` binds x to a dict
+            other = (r.choice([VEC, FLOAT]) if self.cfg.on("ops") else FLOAT) if pos == "aug" else ("dict", STR, INT)
+            t = union([INT, other] + ([NONE] if r.random() < 0.3 else []))
+            n = self.fresh("v")
+            self.emit("%s: %s = %s" % (n, render(t), r.choice(["0", "3"])))
+            v = env.add(Var(n, t, form="assign"))
+            ms = [INT, other]
+            m1, m2 = INT, other
+        else:
+            v = self.shape_var(env, need_none=r.random() < 0.4)
+            ms = self.simple_members(v)
+            m1 = r.choice([m for m in ms if m != NONE] or ms)
+            m2 = r.choice([m for m in ms if m != m1] or ms)
+        self.lab("shape:closure")
+        self.lab("shape:closure_reassign_at:" + pos)
+        # 1. narrow
+        how = r.choice(["assign", "none-default", "isinstance-default"])
+        if how == "none-default" and NONE in v.decl[1] and not special:
+            self.emit("if %s is None:" % v.name)
+            self.ind += 1
+            self.assign_member(v, m1, env)
+            self.ind -= 1
+            v.cur, v.form = union([m for m in v.decl[1] if m != NONE]), "none-default"
+        elif how == "isinstance-default" and m1[0] in ("int", "str", "bytes", "cls") and not special:
+            self.emit("if not isinstance(%s, %s):" % (v.name, m1[1] if m1[0] == "cls" else m1[0]))
+            self.ind += 1
+            self.assign_member(v, m1, env)
+            self.ind -= 1
+            v.cur, v.form = v.decl, "isinstance-default"
+        else:
+            how = "assign"
+            self.assign_member(v, m1, env)
+        self.lab("shape:closure_narrowed_by:" + how)
+        self.emit(self.probe(v.name, env, v))
+        # 2. the closure (nested def, or a lambda bound to an annotated name)
+        cname = self.fresh("inner")
+        inner = Env(v.decl, env.rank, env.mrank)
+        inner.ctx = env.ctx + ("nested",)
+        inner.regions = env.regions
+        self.enter(inner, "closure-body")
+        iv = inner.add(Var(v.name, v.decl, frozen=True, form="captured-before-reassign-at:" + pos))
+        if r.random() < 0.3:
+            self.lab("shape:closure_lambda")
+            self.emit("%s: Callable[[], %s] = lambda: %s" % (cname, render(v.decl), self.probe(v.name, inner, iv)))
+        else:
+            self.emit("def %s() -> %s:" % (cname, render(v.decl)))
+            self.ind += 1
+            self.emit(self.probe(v.name, inner, iv))
+            t = self.narrow_test(iv, inner) if not special else None
+            if t is not None and t[1] != NEVER and r.random() < 0.5:
+                code, yes, _no, form = t
+                self.emit("if %s:" % code)
+                ye = inner.clone()
+                self.enter(ye, form + "+")
+                ye.vars[v.name].cur, ye.vars[v.name].form = yes, form + "+"
+                self.ind += 1
+                self.emit(self.probe(v.name, ye, ye.vars[v.name]))
+                if yes[0] not in ("union", "object"):
+                    u = self.use_expr(ye.vars[v.name], ye)
+                    if u is not None:
+                        self.emit(self.probe(u, ye, form="use:" + form + "+"))
+                self.ind -= 1
+            self.emit("return %s" % v.name)
+            self.ind -= 1
+        if r.random() < 0.5:
+            self.emit(self.probe("%s()" % cname, env, form="closure-result-before-reassign"))
+        # 3. re-assignment at the chosen position
+        base_ind = self.ind
+        code2 = self.atom(m2, env)[0] if not special else "0"
+        asg = "%s = %s" % (v.name, code2)
+        E = self.emit
+
+        def blk(header: str) -> None:
+            E(header)
+            self.ind += 1
+
+        def end() -> None:
+            self.ind -= 1
+
+        if pos == "plain":
+            E(asg)
+        elif pos == "aug":
+            E("%s += %s" % (v.name, "Vec(1, 2)" if m2 == VEC else "0.5"))
+        elif pos == "match-mapping-rest":
+            blk('match {"a": 1, "b": 2}:'); blk('case {"a": 1, **%s}:' % v.name); E("pass"); end(); end()
+        elif pos == "walrus":
+            E(self.probe("(%s := %s)" % (v.name, code2), env, form="walrus-target"))
+        elif pos == "if":
+            blk("if %s:" % self.atom(BOOL, env)[0]); E(asg); end()
+        elif pos == "else":
+            blk("if %s:" % self.atom(BOOL, env)[0]); E("pass"); end(); blk("else:"); E(asg); end()
+        elif pos == "for-body":
+            blk("for %s in range(2):" % self.fresh("x")); E(asg); end()
+        elif pos == "for-else":
+            blk("for %s in range(%s):" % (self.fresh("x"), r.choice(["0", "1", "2"]))); E("pass"); end(); blk("else:"); E(asg); end()
+        elif pos in ("while-body", "while-else"):
+            cn = self.fresh("n")
+            E("%s = 0" % cn)
+            env.add(Var(cn, INT, frozen=True, form="counter"))
+            blk("while %s < 2:" % cn); E("%s += 1" % cn)
+            if pos == "while-body":
+                E(asg); end()
+            else:
+                end(); blk("else:"); E(asg); end()
+        elif pos == "with-body":
+            blk("with Guard() as %s:" % self.fresh("g")); E(asg); end()
+        elif pos == "try-body":
+            blk("try:"); E(asg); E("boom(%s)" % self.boom_arg(env)); end(); blk("except (ValueError, KeyError):"); E("pass"); end()
+        elif pos == "except":
+            blk("try:"); E("boom(%s)" % r.choice(["0", "1", self.boom_arg(env)])); end(); blk("except (ValueError, KeyError):"); E(asg); end()
+        elif pos == "try-else":
+            blk("try:"); E("boom(%s)" % r.choice(["2", "5", self.boom_arg(env)])); end(); blk("except (ValueError, KeyError):"); E("pass"); end(); blk("else:"); E(asg); end()
+        elif pos == "finally":
+            blk("try:"); E("boom(%s)" % r.choice(["2", "5"])); end(); blk("finally:"); E(asg); end()
+        elif pos == "match-case":
+            blk("match %s:" % self.atom(INT, env)[0]); blk("case 1 | 2:"); E("pass"); end(); blk("case _:"); E(asg); end(); end()
+        elif pos == "depth2-if-for-else":
+            blk("if %s:" % r.choice(["True", self.atom(BOOL, env)[0]])); blk("for %s in range(1):" % self.fresh("x")); E("pass"); end(); blk("else:"); E(asg); end(); end()
+        elif pos == "depth2-for-if":
+            blk("for %s in range(2):" % self.fresh("x")); blk("if %s:" % r.choice(["True", self.atom(BOOL, env)[0]])); E(asg); end(); end()
+        elif pos == "depth2-try-for-else":
+            blk("try:"); blk("for %s in range(1):" % self.fresh("x")); E("boom(2)"); end(); blk("else:"); E(asg); end(); end(); blk("except ValueError:"); E("pass"); end()
+        self.ind = base_ind
+        env.assigned.add(v.name)
+        v.cur, v.form = v.decl, "reassigned-after-closure:" + pos
+        # 4. call the closure after the re-assignment
+        self.emit(self.probe("%s()" % cname, env, form="closure-result-after-reassign"))
+        self.emit(self.probe(v.name, env, v))
+
     # ---- nested functions
     def s_nested(self, env: Env, depth: int) -> None:
         r = self.rnd
@@ -2440,6 +2737,10 @@ class FullGen(StmtGen):
         depth = self.cfg.max_depth if not self_cls else max(1, self.cfg.max_depth - 2)
         n = self.nstm(self.cfg.max_depth) if not self_cls else self.rnd.choice([1, 2])
         self.block(env, depth, n)
+        if not env.dead and not self_cls and self.cfg.on("try") and self.rnd.random() < 0.2:
+            self.s_nested_try_shape(env, 2)
+        if not env.dead and not self_cls and self.cfg.on("nested") and self.rnd.random() < 0.2:
+            self.s_closure_shape(env, 2)
         if not env.dead:
             if sig.ret == NONE and self.rnd.random() < 0.6:
                 pass
